@@ -66,6 +66,7 @@ type attemptState struct {
 	closed     chan struct{}
 	closeOnce  sync.Once
 	connected  bool
+	deaf       bool // the transport does not watch its context (see newImpl)
 	subscribed bool
 	next       int  // next scripted message
 	waited     bool // the delay of message `next` has elapsed
@@ -157,6 +158,16 @@ func (w *world) newImpl(ctx context.Context, d client.Destination) (client.Impl,
 	if aborted {
 		<-w.never
 	}
+	if as.script.Conn == "deaf" {
+		// A constructor that does not watch its context (client.InitImpl does
+		// not promise to): it takes its time and then succeeds.
+		time.Sleep(time.Duration(as.script.ConnDelay) * Unit)
+		w.mu.Lock()
+		as.connected, as.deaf = true, true
+		w.events = append(w.events, event{Kind: "connected", Attempt: as.idx, At: w.now(), Note: "deaf"})
+		w.mu.Unlock()
+		return &impl{w: w, as: as}, nil
+	}
 	if err := ctx.Err(); err != nil {
 		return nil, err
 	}
@@ -193,7 +204,7 @@ func (i *impl) Subscribe(ctx context.Context, q client.Query) error {
 	if i.w.isAborted() {
 		<-i.w.never
 	}
-	if err := ctx.Err(); err != nil {
+	if err := ctx.Err(); err != nil && !i.as.deaf {
 		return err
 	}
 	if i.as.script.Sub == "err" {
@@ -232,6 +243,10 @@ func (i *impl) isClosed() bool {
 // outcome does not depend on which of the two wakes Recv); on a closed Impl
 // the buffered messages of a plain scenario are still handed over, one per
 // call, then the stream reports the closed transport.
+//
+// A deaf transport keeps handing over its scripted messages (and its scripted
+// end) whatever happens to the context; only its own Close interrupts it. It
+// notices the cancellation once it has nothing scripted left and would block.
 func (i *impl) Recv() (err error) {
 	w, as := i.w, i.as
 	if w.isAborted() {
@@ -242,8 +257,12 @@ func (i *impl) Recv() (err error) {
 			w.record("recv-end", as.idx, err.Error())
 		}
 	}()
+	ctx := as.ctx
+	if as.deaf {
+		ctx = context.Background()
+	}
 	for {
-		if cerr := as.ctx.Err(); cerr != nil {
+		if cerr := ctx.Err(); cerr != nil {
 			return cerr
 		}
 		if i.isClosed() {
@@ -267,7 +286,7 @@ func (i *impl) Recv() (err error) {
 		if as.next < len(as.script.Msgs) {
 			m := as.script.Msgs[as.next]
 			if !as.waited {
-				if !wait(as.ctx, as.closed, time.Duration(m.Delay)*Unit) {
+				if !wait(ctx, as.closed, time.Duration(m.Delay)*Unit) {
 					continue
 				}
 				as.waited = true
@@ -279,12 +298,15 @@ func (i *impl) Recv() (err error) {
 		if as.script.End == "block" {
 			select {
 			case <-as.ctx.Done():
+				if as.deaf {
+					return as.ctx.Err()
+				}
 			case <-as.closed:
 			}
 			continue
 		}
 		if !as.endWaited {
-			if !wait(as.ctx, as.closed, time.Duration(as.script.EndDelay)*Unit) {
+			if !wait(ctx, as.closed, time.Duration(as.script.EndDelay)*Unit) {
 				continue
 			}
 			as.endWaited = true
